@@ -129,3 +129,83 @@ Theorem C15_unanchored_refuted :
   fst (get_next ex_envP ex_p pstate0 (ex_dt0 + 7000 * NS)) <> fst (get_next ex_envP ex_p ex_st0 (ex_dt0 + 7000 * NS)).
 Proof. exact unanchored_refuted. Qed.
 Print Assumptions C15_unanchored_refuted.
+
+
+(* ---- the tie to the source by translation: coq/gen/GenTrig.v is regenerated from src/eascheduler/builder/{triggers,
+   filters,helper}.py, producers/*.py (`__init__`, `copy`, `_copy_filter`, `add_filter`) and helpers/time_replace.py by
+   tools/gen_trig.py on every run; GenTrigEq.v proves, over a HEAP of objects with identity (GenRtTrig.v), that every
+   generated builder call computes Builder.eval_bop on an object graph it owns.  rep_prod h a p F: the cell a of the heap
+   h represents the producer value p, F = the addresses of its object graph (its footprint); frame h h': every cell of h
+   is unchanged in h'; disjoint footprints = no shared object; NoDup = a tree. ---- *)
+From EAS Require GenRtTrig GenTrigEq.
+Theorem C15_generated_source_recognised : EASGen.GenTrig.gen_trig_status_v = EASGen.GenTrig.GenTrigOk.
+Proof. exact GenTrigEq.gen_trig_recognised. Qed.
+Print Assumptions C15_generated_source_recognised.
+
+(* a whole builder program run through the generated TriggerBuilder / TriggerObject / FilterBuilder API yields objects that
+   represent exactly Builder.run_prog (a raising call where the model says OErr), and all footprints together have no
+   duplicate: every object is a tree and no two objects share a cell *)
+Theorem C15_generated_builder_is_model : forall ops n, (GenTrigEq.os_depth (run_prog ops) <= n)%nat ->
+  exists h refs Fs, GenTrigEq.gen_run n ops = Some (h, refs) /\ GenTrigEq.rep_objs h refs (run_prog ops) Fs /\ NoDup Fs.
+Proof. exact GenTrigEq.gen_run_is_model. Qed.
+Print Assumptions C15_generated_builder_is_model.
+
+(* builder_noninterference / builder_object_stable for the generated code: whatever is called afterwards, every heap
+   cell that existed is unchanged, the user still holds the same objects and they represent what they represented *)
+Theorem C15_generated_builder_noninterference : forall n ops more,
+  (GenTrigEq.os_depth (run_prog (ops ++ more)) <= n)%nat ->
+  exists h refs Fs h' refs',
+    GenTrigEq.gen_run n ops = Some (h, refs) /\ GenTrigEq.gen_run n (ops ++ more) = Some (h', refs') /\
+    GenTrigEq.frame h h' /\ firstn (GenTrigEq.len refs) refs' = refs /\
+    GenTrigEq.rep_objs h refs (run_prog ops) Fs /\ GenTrigEq.rep_objs h' refs (run_prog ops) Fs /\
+    run_prog ops = firstn (GenTrigEq.len ops) (run_prog (ops ++ more)).
+Proof. exact GenTrigEq.gen_builder_noninterference. Qed.
+Print Assumptions C15_generated_builder_noninterference.
+
+(* only_on / only_at leave the receiver as it was (the repaired defect F7) *)
+Theorem C15_generated_only_on_leaves_receiver : forall n ops i f p,
+  (GenTrigEq.os_depth (run_prog (ops ++ [BOnlyOn i f])) <= n)%nat -> get_trig (run_prog ops) i = Some p ->
+  exists h refs h' refs' F,
+    GenTrigEq.gen_run n ops = Some (h, refs) /\ GenTrigEq.gen_run n (ops ++ [BOnlyOn i f]) = Some (h', refs') /\
+    GenTrigEq.frame h h' /\ GenTrigEq.nthv refs' i = GenTrigEq.nthv refs i /\
+    GenTrigEq.rep_obj h (GenTrigEq.nthv refs i) (OTrig p) F /\ GenTrigEq.rep_obj h' (GenTrigEq.nthv refs' i) (OTrig p) F.
+Proof. exact GenTrigEq.gen_only_on_leaves_receiver. Qed.
+Print Assumptions C15_generated_only_on_leaves_receiver.
+
+(* one builder call: all old cells unchanged; the result represents Builder.eval_bop and lies in new cells only *)
+Theorem C15_generated_call_is_model : forall n h refs os Fs o,
+  GenTrigEq.rep_objs h refs os Fs -> (GenTrigEq.os_depth os <= n)%nat ->
+  GenTrigEq.runs (GenTrigEq.gen_bop (GenTrigEq.tknot n) refs o) h (GenTrigEq.step_post h (eval_bop os o)).
+Proof. exact GenTrigEq.gen_bop_spec. Qed.
+Print Assumptions C15_generated_call_is_model.
+
+(* the generated `copy` of every producer class: structurally equal, shares no cell with the original, a tree, the
+   original untouched;  a cell represents at most one value *)
+Theorem C15_generated_copy_producer : forall n h a p F, GenTrigEq.rep_prod h a p F -> (GenTrigEq.pdepth p <= n)%nat ->
+  exists h' a' F', GenTrigEq.call_copy n a h = Some (h', GenRtTrig.TRet (GenRtTrig.VRef a')) /\
+    GenTrigEq.frame h h' /\ GenTrigEq.rep_prod h' a' p F' /\ GenTrigEq.rep_prod h' a p F /\ GenTrigEq.disjoint F F' /\ NoDup F'.
+Proof. exact GenTrigEq.gen_copy_producer. Qed.
+Print Assumptions C15_generated_copy_producer.
+
+Theorem C15_generated_copy_filter : forall n h a f F, GenTrigEq.rep_filt h a f F -> (GenTrigEq.fdepth f <= n)%nat ->
+  exists h' a' F', GenTrigEq.call_copy n a h = Some (h', GenRtTrig.TRet (GenRtTrig.VRef a')) /\
+    GenTrigEq.frame h h' /\ GenTrigEq.rep_filt h' a' f F' /\ GenTrigEq.rep_filt h' a f F /\ GenTrigEq.disjoint F F' /\ NoDup F'.
+Proof. exact GenTrigEq.gen_copy_filter. Qed.
+Print Assumptions C15_generated_copy_filter.
+
+Theorem C15_generated_representation_unique : forall h a p F, GenTrigEq.rep_prod h a p F ->
+  forall p' F', GenTrigEq.rep_prod h a p' F' -> p = p' /\ F = F'.
+Proof. exact GenTrigEq.rep_prod_det. Qed.
+Print Assumptions C15_generated_representation_unique.
+
+(* what JobBuilder.at stores is `_get_producer(trigger)`: two jobs built from one trigger object get two copies that
+   share nothing with each other nor with the trigger object *)
+Theorem C15_generated_jobs_get_disjoint_copies : forall n h v p F,
+  GenTrigEq.rep_obj h v (OTrig p) F -> (GenTrigEq.pdepth p <= n)%nat ->
+  exists h1 a1 F1 h2 a2 F2,
+    EASGen.GenTrig.g__get_producer (GenTrigEq.tknot n) v h = Some (h1, GenRtTrig.TRet (GenRtTrig.VRef a1)) /\
+    EASGen.GenTrig.g__get_producer (GenTrigEq.tknot n) v h1 = Some (h2, GenRtTrig.TRet (GenRtTrig.VRef a2)) /\
+    GenTrigEq.rep_prod h2 a1 p F1 /\ GenTrigEq.rep_prod h2 a2 p F2 /\ GenTrigEq.rep_obj h2 v (OTrig p) F /\
+    GenTrigEq.disjoint F F1 /\ GenTrigEq.disjoint F F2 /\ GenTrigEq.disjoint F1 F2.
+Proof. exact GenTrigEq.gen_get_producer_twice. Qed.
+Print Assumptions C15_generated_jobs_get_disjoint_copies.
